@@ -417,6 +417,7 @@ func directedStateDependence(c *core.Ctx, st *stats) {
 func main() {
 	registerProbe()
 	core.RegisterChild("pipe", pipeChild)
+	core.RegisterChild("pipeconc", pipeConcChild)
 	core.Main("C14", "exploration", run)
 }
 
@@ -454,10 +455,30 @@ func run(c *core.Ctx) {
 	runPipeJobs(c, jobs, per, 8)
 	c.Extra("wall_pipeline_s", time.Since(t0).Seconds())
 
+	// ---- E + F: the concurrent clause (conc.go)
+	t0 = time.Now()
+	nConc := c.N(60, 900)
+	core.ParallelFor(nConc, 2, func(i int) {
+		runConcDirectBatch(c, c.SubSeed("conc-direct", i), c.N(12, 16))
+	})
+	c.Extra("wall_concurrent_direct_s", time.Since(t0).Seconds())
+	t0 = time.Now()
+	nConcPipe := c.N(32, 480)
+	var cjobs []*concJob
+	for i := 0; i < nConcPipe; i++ {
+		kind := "doif"
+		if i%4 == 3 {
+			kind = "mf"
+		}
+		cjobs = append(cjobs, makeConcJob(c.SubSeed("conc-pipe", i), fmt.Sprintf("conc-%s-%d", kind, i), kind, 16, 60, 6))
+	}
+	runConcJobs(c, cjobs, c.N(4, 12), 2)
+	c.Extra("wall_concurrent_pipeline_s", time.Since(t0).Seconds())
+
 	flushSignatures(c)
 
 	// ---- the run must have observed every behaviour class
-	need := []string{"doif.direct.pairs", "mf.pipeline.pairs", "doif.pipeline.pairs", "doif.pipeline.applied", "doif.pipeline.skipped", "mf.cond.regexp", "mf.cond.values"}
+	need := []string{"conc.direct.checks", "conc.direct.checkers_with_both_outcomes", "conc.pipeline.pairs.doif", "conc.pipeline.pairs.mf", "conc.pipeline.batches_really_parallel", "doif.direct.pairs", "mf.pipeline.pairs", "doif.pipeline.pairs", "doif.pipeline.applied", "doif.pipeline.skipped", "mf.cond.regexp", "mf.cond.values"}
 	for _, op := range []string{"equal", "contains", "contains_any", "prefix", "suffix", "regex", "byte_len_cmp", "array_len_cmp", "int_val_cmp", "ts_cmp", "check_type"} {
 		need = append(need, "doif.leaf."+op+".true", "doif.leaf."+op+".false")
 	}
